@@ -154,7 +154,8 @@ CHECKS = {
         "text": ("Lean theorems (unbounded): a path passing the repaired lexical test consists of plain components only, so it names a strict descendant of "
                  "dest (accepted_path_is_plain); an admitted hard link names an earlier admitted plain file (link_source_was_sent); in every sequence the verbatim "
                  "validator accepts, each ancestor path of each entry was announced earlier as a directory and no path is announced twice "
-                 "(every_component_is_an_announced_directory, nothing_is_announced_twice: no component of an accepted path is a symlink of the peer's making); validator theorems of C12. "
+                 "(every_component_is_an_announced_directory, nothing_is_announced_twice: no component of an accepted path is a symlink of the peer's making); over a whole "
+                 "stream every hard-link entry that passes names a plain file announced strictly earlier (hard_link_names_an_earlier_plain_file); validator theorems of C12. "
                  "Correspondence: hostile packet scripts (ill-formed paths, order/parent violations, children of files/symlinks, escaping hard links, symlink "
                  "entries with xattrs pointing outside, DATA for unrequested ids, ERR) against real Receive in a chroot'ed child with sentinel trees around dest; "
                  "the first offender predicted by the Lean admission model; oracle: nothing outside dest changed, failure, nothing at/after the offender applied."),
